@@ -9,6 +9,14 @@ CHECKS = {
          "Every one of the 15 operations is monitored on every call (also inside the algorithms' recursion) and compared with its set-theoretic definition; the 3-node scope is enumerated completely, larger graphs are sampled. Held = no monitor fired on the executions listed in the evidence.",
          "trusts vmon/refgraph.py (O3) as the statement of the definitions; sampled graphs only beyond 3 nodes", "DESIGN §4 C14"),
 }
+CHECKS.update({
+ "C04": ("post-condition on the real are_d_separated vs Bayes-ball m-separation on the explicit latent DAG (O3); exhaustive ADMGs n<=3 (quick) / n<=4 (thorough), random hostile ADMGs n<=8, calls harvested from IDC runs; symmetry by swapped call; insertion-order pairs",
+         "Every call of are_d_separated (own workload and those made inside IDC) is compared with an independent reachability oracle; small scopes are enumerated completely. Held = no disagreement, asymmetry, order dependence or non-canonical record on the executions listed.",
+         "trusts O3's Bayes-ball on the latent DAG as the definition of m-separation", "DESIGN §4 C04"),
+ "C20": ("post-condition on the real are_sigma_separated vs O3 m-separation on acyclic graphs (exhaustive n<=3/4 + random incl. deep-collider class); symmetry and adjacency monitors on random cyclic mixed graphs",
+         "Agreement with d-separation is decided for every acyclic case explored; symmetry/adjacency for cyclic ones. Held = no monitor fired.",
+         "trusts O3; cyclic graphs only for the symmetry and adjacency clauses (as the property states)", "DESIGN §4 C20"),
+})
 PLANNED = {}
 
 def main():
